@@ -65,6 +65,11 @@ def r_no_swallow(ctx: Ctx, rule: str) -> None:
         for r in rets:
             v = r.ast.value
             ok = isinstance(v, ast.Await) and any(a.ast is v for a in aws)
+            if not ok:
+                # through locals and helpers spliced into the wrapper: every value it may return is the awaited coroutine (or None)
+                ls = [x for _f, _e, x in ctx.vals.leaves_at(r, v)]
+                ls = [x for x in ls if not (isinstance(x, ast.Constant) and x.value is None)]
+                ok = bool(ls) and all(isinstance(x, ast.Await) and any(a.ast is x for a in aws) for x in ls)
             if not ok and isinstance(v, ast.Name):
                 sc = ctx.an.scope(w)
                 vals = [h[1] for h in sc.defs.get(v.id, []) if h[0] == "assign" and not (isinstance(h[1], ast.Constant) and h[1].value is None)]
